@@ -149,6 +149,20 @@ def all_cases():
     return cases
 
 
+def interleaved(cases):
+    """Reorder so that the same CID is rendered for all four dialects one after the other, starting with a different
+    dialect each time: anything one dialect leaves behind for the next one (shared caches) then shows up in every worker."""
+    groups = {}
+    for case in cases:
+        key = repr(case["fields"])
+        groups.setdefault(key, []).append(case)
+    ordered = []
+    for number, group in enumerate(groups.values()):
+        shift = number % len(group)
+        ordered.extend(group[shift:] + group[:shift])
+    return ordered
+
+
 def work(item):
     part = Part()
     for case in item:
@@ -160,7 +174,7 @@ def work(item):
 
 
 def run(ctx):
-    cases = all_cases()
+    cases = interleaved(all_cases())
     ctx.pmap(MOD, "work", engine.chunks(cases, 120), label="C19")
     ctx.bound = {"cases": len(cases), "integer ranges": "all %d pairs lo <= hi over the boundary set of %d values x 4 dialects, plus length-derived and default ranges" % (len(BOUNDARY) * (len(BOUNDARY) + 1) // 2, len(BOUNDARY)),
                  "CIDs": "1..6 fields over a catalogue of 40 typed declarations with 10 names (keywords of every dialect included), empty flag both ways", "dialects": ["ANSI", "DB2", "Transact-SQL", "PL/SQL"]}
